@@ -16,7 +16,8 @@
 //@ requires#callback_callable
       forall|p: Plugin, v: Value| call_requires(*callback, (p, v))
 //@ ensures#the_request_handler_is_started_as_a_task_of_its_own [C17,C06,C13,C12,C11,C07]
-      final(d).spawned == old(d).spawned + 1
+//    on every return -- there is no error path between the lookup and the spawn on which the request is dropped
+      r is Ok && final(d).spawned == old(d).spawned + 1
 //@ end
 
 //@ fn cln_plugin::PluginDriver::dispatch_one#request_lookup
